@@ -93,7 +93,9 @@ def render(d, style="prefix", prefix="xtce", od=False, extra_ns=False, comments=
     body += "".join(xml_container(c, d["containers"][c], od, base_first) for c in (corder or d["corder"]))
     body += "</ContainerSet></TelemetryMetaData></SpaceSystem>"
     if comments:
+        # a comment (and whitespace) as first child of every element that has children, and between all siblings
         body = re.sub(r"(<[A-Za-z][^>]*[^/]>)(?=<)", lambda m: m.group(1) + "\n  <!-- c -->\n  ", body)
+        body = re.sub(r"(</[A-Za-z][^>]*>|<[A-Za-z][^>]*/>)(?=<)", lambda m: m.group(1) + "\n <!-- s -->\t", body)
     xsi = ' xmlns:xsi="http://www.w3.org/2001/XMLSchema-instance" xsi:schemaLocation="http://www.omg.org/space/xtce SpaceSystem.xsd"' if extra_ns else ""
     if style == "prefix":
         body = re.sub(r"<(/?)([A-Za-z])", lambda m: f"<{m.group(1)}{prefix}:{m.group(2)}", body)
@@ -183,6 +185,19 @@ def share_equal_parts(dobj):
     return n
 
 
+def reverse_listed_orders(dobj):
+    """Object-built definitions may list the terms of a polynomial in any order (highest exponent first is as common as lowest first):
+    reverse every coefficient list. The polynomial, and so the definition's meaning, is the same."""
+    seen = set()
+    for pt in dobj.parameter_types.values():
+        enc = getattr(pt, "encoding", None)
+        cals = [getattr(enc, "default_calibrator", None)] + [cc.calibrator for cc in (getattr(enc, "context_calibrators", None) or [])]
+        for cal in cals:
+            if type(cal).__name__ == "PolynomialCalibrator" and id(cal) not in seen:
+                seen.add(id(cal))
+                cal.coefficients = list(reversed(cal.coefficients))
+
+
 def make(d, route):
     """route: ('obj',) | ('xml', style, od, comments)"""
     if route[0] == "obj":
@@ -191,7 +206,9 @@ def make(d, route):
             share_equal_parts(dobj)
             return dobj
         if len(route) > 1 and route[1] == "rev":
-            return build(d, reverse=True)
+            dobj = build(d, reverse=True)
+            reverse_listed_orders(dobj)
+            return dobj
         return build(d)
     if route[0] == "file":           # a document on disk, loaded as it is: ("file", path, prefix or "", root)
         from space_packet_parser.xtce.definitions import XtcePacketDefinition
